@@ -212,6 +212,8 @@ class Terminate(Part):
             if strays:
                 raise Violation("terminate.stray-process", f"processes started by this case are still alive: {strays} "
                                 f"(fails={case['fails']})", site=",".join(case["fails"]) or "-")
+            ratio = took / bound
+            labels.append("took/bound:" + ("<25%" if ratio < 0.25 else "<50%" if ratio < 0.5 else "<75%" if ratio < 0.75 else "<100%"))
             nontrivial = any(m["activity"] != "idle" for m in case["members"]) or bool(case["fails"])
             return dict(labels=sorted(set(labels)) + [f"timeout:{case['timeout']}"], nontrivial=nontrivial,
                         sample={"case": case, "took_s": round(took, 2), "workers": [p[0] for p in pids]})
